@@ -18,6 +18,8 @@ use trippy_core::verif::{
 };
 use trippy_core::Probe;
 
+/// Virtual cost of a `select()` with a zero timeout.
+pub const ZERO_TIMEOUT_COST_US: u64 = 50;
 pub const TARGET_CODE: u16 = 60000;
 pub const SRC_CODE: u16 = 1;
 
@@ -737,14 +739,16 @@ impl World {
         let now = self.now();
         // the real implementation passes whole milliseconds to select()
         let to = (to / 1000) * 1000;
+        // a zero timeout is a poll: charge the cost of the system call so virtual time progresses
+        let poll_cost = if to == 0 { ZERO_TIMEOUT_COST_US } else { 0 };
         match self.queue.first() {
             Some(d) if d.t <= now + to => {
                 let t = d.t.max(now);
-                clock::set_us(self.t0 + t + if to == 0 { 1 } else { 0 });
+                clock::set_us(self.t0 + t + poll_cost);
                 Ok(true)
             }
             _ => {
-                clock::set_us(self.t0 + now + to.max(1));
+                clock::set_us(self.t0 + now + to + poll_cost);
                 self.counters.timeouts += 1;
                 Ok(false)
             }
